@@ -1,8 +1,52 @@
 import GceTcb.Base.Line
-/- Driver handler for stream `c09` (stub: replaced when the property's model lands). -/
-namespace GceTcb.Drive.C09
-open GceTcb
+import GceTcb.Model.Reentrancy
+import GceTcb.Gen.ClosureWrites
+import GceTcb.Drive.C01
+/-
+Driver handler for stream `c09`.
 
-def handle (_f : Fields) : String := "unimplemented"
+One case = one batch of validator invocations that the harness ran concurrently (or successively) on
+the real code: the primitive facts of the endorsements involved (same encoding as stream c01), the
+options the caller configured, the calls, and a complete schedule drawn by the harness.  The handler
+runs the interleaving model with the write lists REGENERATED from the source (Gen.ClosureWrites) under
+that schedule and prints every thread's result and the caller's SNP options afterwards.  With empty write
+lists the answer does not depend on the schedule (C09_isolated); the real results must agree.
+-/
+namespace GceTcb.Drive.C09
+open GceTcb GceTcb.Verify GceTcb.Reentrancy
+
+/-- `<measurement hex or nil>/<serialized ref>` -/
+def parseCall (s : String) : Call :=
+  match s.splitOn "/" with
+  | [m, r] =>
+    ⟨if m == "nil" then none else some ⟨1, (hexDecode m).getD [], []⟩, Drive.C01.refBytes r⟩
+  | _ => ⟨none, none⟩
+
+def showSnp : Option SNPOptions → String
+  | none => "-"
+  | some o =>
+    s!"{o.expectedLaunchVMSAs}:" ++ (match o.measurement with | none => "nil" | some m => hexEncode m)
+
+def showResult : Option Res → String
+  | none => "unfinished"
+  | some r => Drive.C01.showRes r
+
+def handle (f : Fields) : String :=
+  match f.get "op" with
+  | "run" =>
+    let callList := ((f.get "calls").splitOn ";").map parseCall
+    let n := callList.length
+    let cfg : Cfg Drive.C01.Cert Drive.C01.Roots Drive.C01.Time :=
+      ⟨Drive.C01.mkPrims f, f.get "fam", Drive.C01.mkOptions f,
+       Gen.ClosureWrites.constructorWrites, Gen.ClosureWrites.closureWrites⟩
+    let calls : Fin n → Call := fun i => callList.getD i.val ⟨none, none⟩
+    let σ : List (Fin n) := (f.list "sched").filterMap fun t =>
+      match t.toNat? with
+      | some k => if h : k < n then some ⟨k, h⟩ else none
+      | none => none
+    let s := runSched cfg calls σ
+    let rs := (List.finRange n).map fun i => showResult (s.locals i).result
+    s!"res={",".intercalate rs} snp={showSnp s.shared.snp}"
+  | _ => "bad-op"
 
 end GceTcb.Drive.C09
